@@ -208,19 +208,29 @@ def _format(s, *a, **k):
 
 
 def _abs_join(sep, it):
-    """b"".join(abstract sequence of byte strings) = BigConcat of the elements"""
+    """b"".join(abstract sequence of byte strings) = BigConcat of the elements (+ the concrete tail)"""
     from .rope import bigcat, BC
+    from .abscoll import AbsList
     if _b.isinstance(sep, KRecv):
         sep = sep.v
     if _b.len(sep) != 0:
         raise Undecided("join of an abstract sequence with a non-empty separator")
-    n = it._pyvc_len()
-    J = BC.J
-    probe = Rope.of(it._pyvc_elem(J))
+    if _b.isinstance(it, AbsList):
+        ef = it.elem
+        lo = _t(it.base)
+        hi = _simp(lo + _t(it.n))
+        tail = it.tail
+    else:
+        ef = it._pyvc_elem
+        lo, hi, tail = I0, _t(it._pyvc_len()), []
+    probe = Rope.of(ef(SInt(BC.J)))
     name = "join|" + probe.key()
-    return bigcat(name, 0, n, lambda j: Rope.of(it._pyvc_elem(_t(j))),
-                  lambda j: Rope.of(it._pyvc_elem(_t(j))).length_term(),
-                  min_len=getattr(it, "_pyvc_min_elem_len", 0))
+    r = bigcat(name, lo, hi, lambda j: Rope.of(ef(j if _b.isinstance(j, SInt) else SInt(_t(j)))),
+               lambda j: Rope.of(ef(SInt(_t(j)))).length_term(),
+               min_len=getattr(it, "_pyvc_min_elem_len", 0))
+    for x in tail:
+        r = r + Rope.of(x)
+    return r
 
 
 class KRecv:
